@@ -1,27 +1,27 @@
 SPECIFICATION MCSpec
 CONSTANTS
- N = 4
- T = 3
+ N = 3
+ T = 2
  NV = 1
- Cmds = {1, 2, 3, 4}
+ Cmds = {1, 2, 3}
  DupLastWins = TRUE
  Defect = "none"
- Honest = {1, 2, 3}
- Args <- ArgsOne
+ Honest = {1, 2}
+ Args <- ArgsList
  ByzPosts <- ByzNone
  MaxByz = 0
  Faults <- FNone
  MaxFault = 0
- Tampers <- TNone
- MaxTamper = 0
- Plants <- PNone
- MaxPlant = 0
+ Tampers <- TGroups
+ MaxTamper = 1
+ Plants <- PSome
+ MaxPlant = 1
  Ticks <- TkNone
  MaxTick = 0
- Nodes = {1}
+ Nodes = {}
  NodeApiOn = TRUE
  NodeWatch = TRUE
- MaxNode = 1
+ MaxNode = 0
  Policy = "free"
 INVARIANTS Safety ViewNewest TimerSane
 PROPERTIES MCFetchWritesGood MCFileStable MCNodeKeeps MCSignJoins
